@@ -1,7 +1,7 @@
 (* Component 32: the model of the small public items equals the reference on the reference's whole domain, in both build
    profiles, and the independent decoder returns the caller's values. *)
 From Coq Require Import NArith List Bool Lia.
-From ACPI Require Import Lib.Bytes Lib.Sx Lib.Machine Impl.Fields Impl.Misc Spec.Layout Spec.MiscS Proofs.WalkP.
+From ACPI Require Import Lib.Bytes Lib.Sx Lib.Machine Impl.Fields Impl.Misc Spec.Layout Spec.AmlCoreS Spec.MiscS Spec.RhctS Impl.Rhct Proofs.WalkP Proofs.RhctRefP.
 Import ListNotations.
 Open Scope N_scope.
 
@@ -27,19 +27,24 @@ Qed.
 
 Lemma misc_ref_shape c r : misc_ref c = Some r ->
   (exists k addr, c = SL [SA 1; SA k; SA addr]) \/ (exists k addr, c = SL [SA 2; SA k; SA addr]) \/
-  (exists w, c = SL [SA 3; SA w] /\ w < 4).
+  (exists w, c = SL [SA 3; SA w] /\ w < 4) \/ (exists l, c = SL [SA 4; SL l]) \/ (exists l, c = SL [SA 5; SL l]).
 Proof.
   unfold misc_ref. intros H.
   repeat match type of H with
-         | match ?x with _ => _ end = Some _ => destruct x; try discriminate H
-         end; eauto 8.
-  all: right; right; eexists; split; [reflexivity|reflexivity].
+         | match ?x with _ => _ end = Some _ =>
+             lazymatch x with
+             | sx_nums _ => fail
+             | _ => destruct x; try discriminate H
+             end
+         end; eauto 10.
+  all: right; right; left; eexists; split; [reflexivity|reflexivity].
 Qed.
 
 Theorem misc_refines : forall md c r, misc_ref c = Some r -> misc_case md c = r.
 Proof.
   intros md c r H.
-  destruct (misc_ref_shape c r H) as [(k & addr & ->)|[(k & addr & ->)|(w & Hcw & Hw)]]; try subst c; cbn [misc_ref] in H.
+  destruct (misc_ref_shape c r H) as [(k & addr & ->)|[(k & addr & ->)|[(w & Hcw & Hw)|[(l & ->)|(l & ->)]]]];
+    try subst c; cbn [misc_ref] in H.
   - destruct (N.ltb_spec addr (2 ^ 16)) as [Hlt|]; [|discriminate H].
     destruct (gas_ref 1 k addr) as [b|] eqn:E; [|discriminate H]. injection H as <-.
     destruct (gas_model_eq_ref md 1 k addr b E) as (f & Hf & Hs).
@@ -50,6 +55,12 @@ Proof.
     cbn [misc_case]. rewrite Hf, Hs. reflexivity.
   - assert (Hc : w = 0 \/ w = 1 \/ w = 2 \/ w = 3) by lia.
     destruct Hc as [-> | [-> | [-> | ->]]]; injection H as <-; reflexivity.
+  - cbn [misc_case]. destruct (sx_nums l) as [b|]; [|discriminate H].
+    destruct (is_nameseg b); [|discriminate H]. injection H as <-. reflexivity.
+  - cbn [misc_case]. cbn [rhct_entry_ref sx_bytes] in H.
+    destruct (sx_nums l) as [b|]; [|discriminate H].
+    match type of H with option_map _ ?x = _ => destruct x as [e|] eqn:E; [|discriminate H] end.
+    injection H as <-. rewrite (isa_is_reference b e E). reflexivity.
 Qed.
 
 (* decoding the reference returns the caller's values at the specification's offsets *)
@@ -69,6 +80,8 @@ Qed.
 
 Example misc_nonvacuous :
   misc_ref (SL [SA 1; SA 4; SA 0x3f8]) = Some [EvBytes [1; 32; 0; 3; 0xf8; 3; 0; 0; 0; 0; 0; 0]] /\
+  misc_ref (SL [SA 4; SL [SA 70; SA 76; SA 68; SA 48]]) = Some [EvBytes [70; 76; 68; 48]] /\ misc_ref (SL [SA 4; SL [SA 102; SA 76; SA 68; SA 48]]) = None /\
+  misc_ref (SL [SA 5; SL [SA 114; SA 118; SA 54]]) = Some [EvBytes [0; 0; 12; 0; 1; 0; 4; 0; 114; 118; 54; 0]] /\
   misc_case Checked (SL [SA 1; SA 16; SA 0]) = [EvPanic] /\ misc_case Wrapping (SL [SA 2; SA 3; SA 5]) = [EvPanic].
 Proof. vm_compute. repeat split. Qed.
 
